@@ -399,8 +399,8 @@ async def probe_context(loop, ctx, net):
 
 
 def run_script(script):
-    logging.getLogger("coap-server").setLevel(logging.CRITICAL)
-    logging.getLogger("coap").setLevel(logging.CRITICAL)
+    __import__("common").quiet(logging.getLogger("coap-server"))
+    __import__("common").quiet(logging.getLogger("coap"))
     r = Runner(script)
     _, loop = vloop.run(r.main, max_time=1e7)
     # group the outputs: group 0 = before the first input, then one group per input
